@@ -26,6 +26,24 @@ MUTANTS = [
     ("C15", "areneigh-no-wrap-test", P + "rdgridspace.py", "        if self._boundary_conditions[\"z\"] == \"periodical\" :\n            dz = min(dz, abs(self.d-dz))", "        dz = min(dz, abs(self.d-dz))", "C15.DISP"),
     ("C01", "get-edge-directed", P + "rdgraphspace.py", "            if (edge.i==i and edge.j==j) or (edge.i==j and edge.j==i) :", "            if (edge.i==i and edge.j==j) :", "C01.NEIGH"),
     ("C01", "graph-neighbours-above-only", P + "kinetics.py", "        if j != position :\n            if system.space.get_edge(position, j) is not None :", "        if j > position :\n            if system.space.get_edge(position, j) is not None :", "C01.NEIGH"),
+    # ---- rules added in rounds 2-3
+    ("C02", "nbr-table-coords-swapped", E + "SimulationAlgorithm3DBase.hpp", "this->mesh_neighbors[i*6+n] = GetNeighborIndex(xcoord, ycoord, zcoord, n);", "this->mesh_neighbors[i*6+n] = GetNeighborIndex(ycoord, xcoord, zcoord, n);", "C02.NBR-TABLE"),
+    ("C02", "graph-edge-one-way", E + "SimulationAlgorithmGraphBase.hpp", "          mesh_neighbor_index[edge_j[i]].push_back(edge_i[i]);", "          mesh_neighbor_index[edge_j[i]].push_back(edge_j[i]);", "C02.NBR-TABLE"),
+    ("C02", "uncg-divides-by-all-nodes", P + "coarsegrain.py", "in_state[n, s, node_index]/len(cg_nodes[node_index])", "in_state[n, s, node_index]/len(cg_nodes)", "C02.UNCG"),
+    ("C03", "source-also-needs-free-destination", E + "Gillespie3D.hpp", "        if(!mesh_chstt[mesh_index*n_species+species_index])\n            {\n            mesh_x[mesh_index*n_species+species_index] -= 1;", "        if(!mesh_chstt[mesh_index*n_species+species_index] && !mesh_chstt[j*n_species+species_index])\n            {\n            mesh_x[mesh_index*n_species+species_index] -= 1;", "C03.GUARD-ID"),
+    ("C05", "eq-with-tolerance-call", P + "units.py", "                return (self.value == v.convert(self.units.sys).value)", "                return math.isclose(self.value, v.convert(self.units.sys).value)", "C05.CMP"),
+    ("C06", "eq3-drops-quantity", P + "units.py", "                self.time     == v[\"time\"] and\n                self.quantity == v[\"quantity\"]", "                self.time     == v[\"time\"]", "C06.EQ3"),
+    ("C07", "poisson-shifted-mean", E + "SimulationAlgorithm3DBase.hpp", "        return std::poisson_distribution<int>(lambda)(rng);", "        return std::poisson_distribution<int>(lambda+0.5)(rng);", "C07.TAU"),
+    ("C08", "setup-writes-script-seed", P + "librdengine.py", "        units_system = script.units_system.copy()\n", "        units_system = script.units_system.copy()\n        script.rng_seed = int(script.rng_seed)\n", "C08.PY-PURE"),
+    ("C12", "state-key-conditional", P + "rdsystem.py", "        \"chemostats\" : array_to_list(rds.chemostats)\n        }\n", "        }\n    if len(rds.chemostats) > 0 :\n        d[\"chemostats\"] = array_to_list(rds.chemostats)\n", "C12.COND-KEY"),
+    ("C14", "count-add-without-update", E + "engine.cpp", "            mesh_x_sto[i*n_species+s]++;\n            delta_count++;", "            if(mesh_x[i*n_species+s]>1) mesh_x_sto[i*n_species+s]++;\n            delta_count++;", "C14.COUNT"),
+    ("C16", "uncg-traj-drops-option", P + "coarsegrain.py", "        engine_option = trajectory.engine_option,\n", "", "C16.UNCG-TRAJ"),
+    ("C16", "cgscript-resets-seed", P + "simulate.py", "        cgscript.system = coarsegrain_system(cgscript.system, cgmap)\n", "        cgscript.system = coarsegrain_system(cgscript.system, cgmap)\n        cgscript.rng_seed = None\n", "C16.SCRIPT"),
+    ("C19", "sides-split-on-arrow-blank", P + "rdnetwork.py", "        sides = string.split('->')", "        sides = string.split(' -> ')", "C19.ACCUM"),
+    ("C20", "itemdim-check-after-extract", P + "units.py", "                        if self._value[i].units.dim != self.units.dim :\n                            raise ValueError(\"units dimensions of item \"+str(i)+\" does not match the UnitArray units.\")\n", "", "C20.ITEMDIM"),
+    ("C17", "truthy-position", P + "rdoutput.py", "        if isnone(species) :", "        if not species :", "C17.TRUTH"),
+    ("C13", "lossy-density", P + "rdsystem.py", "        state[i] = (cell_species_density * cell_vol.get_at(i)).convert(units_system).value", "        state[i] = round((cell_species_density * cell_vol.get_at(i)).convert(units_system).value, 9)", "C13.LOSSY"),
+    ("C06", "convert-in-place", P + "units.py", "    return value*compute_conversion_factor(su_src, su_dst, sdim)", "    value *= compute_conversion_factor(su_src, su_dst, sdim)\n    return value", "C06.PURE"),
     # ---- C13
     ("C13", "state-index-cell-major", P + "rdsystem.py", "        return species_index * self.space.size() + cell_index", "        return cell_index * self.network.nspecies() + species_index", "C13.INDEX"),
     ("C13", "state-not-converted", P + "rdsystem.py", "        state[i] = (cell_species_density * cell_vol.get_at(i)).convert(units_system).value", "        state[i] = (cell_species_density * cell_vol.get_at(i)).value", "C13.TAG"),
